@@ -242,6 +242,23 @@ def rule7_replay(ctx):
             return len(l) == 1 and l[0].op == 'load' and f.field(l[0]) == EG + 'v'
         for st in inc + dec:
             ctx.ob('C19.7', 'ready count indexed by the edge target', idx_is_edge_target(st), 'ready_count[e->v]', loc=st.loc)
+        if len(zero) == 1:
+            zl = lib.loop_containing(f, zero[0])
+            zi = [x for x in f.ap(zero[0].ops[1]).steps if x[0] in ('p', 'i')]
+            okz = False
+            if zl is not None and zi and isinstance(zi[0][1], str):
+                acount = lib.affine_diff(f, rc[0].args[0], {'c': 0, 'w': 64})
+                for ic in f.order:
+                    if ic.op == 'icmp' and ic.pred in ('slt', 'ult') and ic.block.id in zl['blocks'] and lib.same_expr(f, ic.ops[0], zi[0][1]):
+                        bound = lib.affine_diff(f, ic.ops[1], {'c': 0, 'w': 64})
+                        nl = lib.load_terms(f, bound, PI + 'n')
+                        if len(nl) == 1 and len(bound) == 1 and bound[nl[0]] == 1 and \
+                                any(k in f.insts and f.field(f.insts[k]) == PI + 'n' for k in acount):
+                            for br in f.users(ic.id):
+                                if br.op == 'br' and 'cond' in br.d and f.edge_dominates(br.block.id, br.d['t'], zero[0]):
+                                    okz = True
+            ctx.ob('C19.7', 'ready counts are cleared for exactly the n nodes allocated', okz, 'for (i = 0; i < G->n; i++) ready_count[i] = 0',
+                   loc=zero[0].loc)
         if len(zero) == 1 and len(inc) == 1:
             r_z, r_i, r_d = f.reachable_from(zero[0]), f.reachable_from(inc[0]), f.reachable_from(deq[0])
             ctx.ob('C19.7', 'counts are complete before the replay starts', inc[0] in r_z and zero[0] not in r_i and deq[0] in r_i and
@@ -285,7 +302,7 @@ def rule7_replay(ctx):
     ctx.ob('C19.7', 'replay starts with the first leaf ready', len(init) == 1 and const_int(init[0].args[2]) == K['ready'] and
            any(k in f.insts and f.insts[k].op == 'call' and f.insts[k].callee == 'dr_pi_dag_first_leaf' for k in f.sources(init[0].args[3])),
            'ready(first leaf) is the only initial event', loc=f.loc)
-    ctx.floor('C19.7', 28)
+    ctx.floor('C19.7', 29)
 
 
 PN = 'dr_pi_dag_node.'
@@ -355,7 +372,34 @@ def rule6_grouping(ctx, w):
         okv = m_ok(v) or (isinstance(v, str) and f.get(f.strip(v)) is not None and f.get(f.strip(v)).op == 'phi' and
                           any(l['header'] == f.get(f.strip(v)).block.id for l in f.loops))
         ctx.ob('C19.6', 'boundary value is the scan position or m', okv, 'j (current edge index) or m', loc=e.loc)
-    ctx.floor('C19.6', 19)
+    # the tail writes T[i + 1]: only while i < n - 1; both scans advance i on every iteration
+    for e_ in ends:
+        comp = [b for b in begins if b.block.id == e_.block.id and lib.same_expr(f, b.ops[0], e_.ops[0]) and
+                lib.affine_diff(f, node_index(b), node_index(e_)) == {'': 1}]
+        if not comp or not m_ok(e_.ops[0]):
+            continue
+        iv = node_index(e_)
+        okb = False
+        for ic in f.order:
+            if ic.op == 'icmp' and ic.pred in ('slt', 'ult') and isinstance(iv, str) and f.strip(ic.ops[0]) == f.strip(iv):
+                dd = lib.affine_diff(f, ic.ops[1], {'c': 0, 'w': 64})
+                nl = lib.load_terms(f, dd, PI + 'n')
+                if len(nl) == 1 and dd[nl[0]] == 1 and dd.get('', 0) <= -1 and len(dd) == 2:
+                    for br in f.users(ic.id):
+                        if br.op == 'br' and 'cond' in br.d and f.edge_dominates(br.block.id, br.d['t'], comp[0]):
+                            okb = True
+        ctx.ob('C19.6', 'tail loop writes T[i + 1] only while i < n - 1', okb, 'the last node has no successor range to open', loc=comp[0].loc)
+    for lp in f.loops:
+        hb = f.blocks[lp['header']]
+        adv = False
+        for ph in [i for i in hb.insts if i.op == 'phi' and i.ty == 'i64']:
+            ds = [lib.min_delta(f, val, ph.id) for val, b in ph.d['incoming'] if b in lp['blocks']]
+            if ds and all(d_ is not None and d_ >= 1 for d_ in ds) and any(
+                    ic.op == 'icmp' and f.strip(ic.ops[0]) == ph.id and ic.block.id in lp['blocks'] for ic in f.order):
+                adv = True
+        ctx.ob('C19.6', 'scan at block %d advances on every iteration' % lp['header'], adv,
+               'a scan whose index stands still never terminates', loc=f.loc)
+    ctx.floor('C19.6', 23)
 
 
 def nonempty_range_guards(f, node_root):
@@ -552,7 +596,45 @@ def rule5_growth(ctx):
         oke = oke and bool(memsts) and all(eq.dominates_f(ens[0], x) for x in memsts)
     ctx.ob('C19.5', 'enq ensures capacity n + 1 before storing the event', oke, 'dr_event_queue_ensure(q, q->n + 1) dominates events[n] = evt',
            loc=eq.loc)
-    ctx.floor('C19.5', 6)
+    # enq: store at index n, then n + 1, then restore the heap; deq: take slot 0, move the last element there, n - 1, restore
+    def counter_step(fn, want):
+        out = []
+        for st in fn.stores_to('dr_event_queue.n'):
+            av = affine(fn, st.ops[0])
+            own = [k for k in av if k in fn.insts and fn.insts[k].op == 'load' and fn.field(fn.insts[k]) == 'dr_event_queue.n']
+            if len(own) == 1 and av[own[0]] == 1 and av.get('', 0) == want and len([k for k in av if k != '' and av[k] != 0]) == 1:
+                out.append(st)
+        return out
+    inc = counter_step(eq, 1)
+    up = call_sites(eq, 'dr_event_queue_heapify_up')
+    cp = [x for x in eq.calls() if (x.callee or '').startswith('llvm.memcpy')]
+    okq = len(inc) == 1 and len(up) == 1 and len(cp) >= 1 and all(eq.dominates_f(x, inc[0]) for x in cp) and eq.dominates_f(inc[0], up[0]) and \
+        eq.always_passes(eq.entry_inst(), up)
+    ctx.ob('C19.5', 'enq: element stored, count incremented, heap order restored', okq,
+           'events[n] = evt; n++; heapify_up - an event that is stored but not counted, or counted but left out of order, is lost or '
+           'replayed at the wrong time', loc=eq.loc)
+    if cp:
+        ix = [x for x in eq.ap(cp[0].args[0]).steps if x[0] in ('p', 'i')]
+        oki = bool(ix) and isinstance(ix[-1][1], str) and is_load_of(eq, ix[-1][1], 'dr_event_queue.n')
+        ctx.ob('C19.5', 'enq stores at index n', oki, 'the first free slot', loc=cp[0].loc)
+    dq = ctx.need_fn(c, 'dr_event_queue_deq')
+    dec = counter_step(dq, -1)
+    dn = call_sites(dq, 'dr_event_queue_heapify_down')
+    okd = len(dec) == 1 and len(dn) == 1 and dq.dominates_f(dec[0], dn[0]) and dq.always_passes(dq.entry_inst(), dn)
+    ctx.ob('C19.5', 'deq: count decremented, heap order restored', okd, 'n--; heapify_down', loc=dq.loc)
+    mv = [x for x in dq.calls() if (x.callee or '').startswith('llvm.memcpy')]
+    okm = False
+    for x in mv:
+        di = [y for y in dq.ap(x.args[0]).steps if y[0] in ('p', 'i')]
+        si = [y for y in dq.ap(x.args[1]).steps if y[0] in ('p', 'i')]
+        if is_load_of(dq, dq.ap(x.args[0]).root, 'dr_event_queue.events') and is_load_of(dq, dq.ap(x.args[1]).root, 'dr_event_queue.events') and \
+                (not di or const_int(di[-1][1] if not isinstance(di[-1][1], int) else {'c': di[-1][1]}) == 0) and si and isinstance(si[-1][1], str):
+            a_ = affine(dq, si[-1][1])
+            nl = lib.load_terms(dq, a_, 'dr_event_queue.n')
+            if len(nl) == 1 and a_[nl[0]] == 1 and a_.get('', 0) == -1 and dec and dq.dominates_f(x, dec[0]):
+                okm = True
+    ctx.ob('C19.5', 'deq moves the last element to the root before shrinking', okm, 'events[0] = events[n - 1]; n--', loc=dq.loc)
+    ctx.floor('C19.5', 10)
 
 
 DUMP = 'src/profiler/dr_dump.c'
@@ -598,6 +680,18 @@ MUTANTS = [
      'edits': [('src/profiler/chronological.c', "\t}\n      }\n      break;\n    }\n    default:", "\t}\n      }\n      continue;\n    }\n    default:")]},
     {'name': 'replay: ready counts indexed by the source node', 'expect': 'C19.7',
      'edits': [('src/profiler/chronological.c', "    ready_count[G->E[i].v]++;", "    ready_count[G->E[i].u]++;")]},
+    {'name': 'enq does not count the new event (sweep M0046)', 'expect': 'C19.5',
+     'edits': [('src/profiler/chronological.c', "  q->events[q->n] = evt;\n  q->n++;\n  dr_event_queue_heapify_up(q);", "  q->events[q->n] = evt;\n  dr_event_queue_heapify_up(q);")]},
+    {'name': 'enq leaves the heap unordered (sweep M0047)', 'expect': 'C19.5',
+     'edits': [('src/profiler/chronological.c', "  q->n++;\n  dr_event_queue_heapify_up(q);", "  q->n++;")]},
+    {'name': 'deq takes the element past the end', 'expect': 'C19.5',
+     'edits': [('src/profiler/chronological.c', "  q->events[0] = q->events[q->n - 1];\n  q->n--;", "  q->n--;\n  q->events[0] = q->events[q->n - 1];")]},
+    {'name': 'tail scan of set_edge_ptrs does not advance (sweep M0094)', 'expect': 'C19.6',
+     'edits': [(DUMP, "    T[i].edges_end = m;\n    T[i+1].edges_begin = m;\n    i++;", "    T[i].edges_end = m;\n    T[i+1].edges_begin = m;")]},
+    {'name': 'tail scan runs to i < n (sweep M0097)', 'expect': 'C19.6',
+     'edits': [(DUMP, "  while (i < n - 1) {", "  while (i < n) {")]},
+    {'name': 'ready counts cleared one past the end (sweep M0062)', 'expect': 'C19.7',
+     'edits': [('src/profiler/chronological.c', "  for (i = 0; i < G->n; i++) {\n    ready_count[i] = 0;", "  for (i = 0; i <= G->n; i++) {\n    ready_count[i] = 0;")]},
     {'name': 'edge pointers set before sorting', 'expect': 'C19.2',
      'edits': [(DUMP, "  dr_pi_dag_enum_edges(G_);\t   /* G_->E */\n  dr_pi_dag_sort_edges(G_);\n  dr_pi_dag_set_edge_ptrs(G_);", "  dr_pi_dag_enum_edges(G_);\t   /* G_->E */\n  dr_pi_dag_set_edge_ptrs(G_);\n  dr_pi_dag_sort_edges(G_);")]},
 ]
